@@ -155,6 +155,29 @@ func genC14Locks(repo string) (string, string, error) {
 	for _, p := range c14pkgs {
 		args = append(args, c14mod+p)
 	}
+	// go.mod / go.sum are used through copies (-modfile): the repository tree is never written,
+	// and a scratch worktree without go.sum (it is git-ignored in /repo) still resolves offline.
+	tmp, err := os.MkdirTemp("", "c14locks")
+	if err != nil {
+		return "", "", err
+	}
+	defer os.RemoveAll(tmp)
+	gomod, err := os.ReadFile(filepath.Join(repo, "go.mod"))
+	if err != nil {
+		return "", "", err
+	}
+	if err := os.WriteFile(filepath.Join(tmp, "go.mod"), gomod, 0o644); err != nil {
+		return "", "", err
+	}
+	for _, cand := range []string{filepath.Join(repo, "go.sum"), "/repo/go.sum", "/verif/harness/go.sum.base"} {
+		if b, err := os.ReadFile(cand); err == nil {
+			if err := os.WriteFile(filepath.Join(tmp, "go.sum"), b, 0o644); err != nil {
+				return "", "", err
+			}
+			break
+		}
+	}
+	args = append(args[:1], append([]string{"-modfile", filepath.Join(tmp, "go.mod")}, args[1:]...)...)
 	cmd := exec.Command("go", args...)
 	cmd.Dir = repo
 	env := []string{}
